@@ -1176,6 +1176,39 @@ impl<'a> SGen<'a> {
             };
             return line("block-with-local", vec![st(&format!("{}{{ {} }};", head, inner), true)], Fail::None, true, false);
         }
+        if self.rng.chance(1, 12) && !self.globals.is_empty() {
+            // a function that changes globals (and returns normally): the whole line completes
+            let a = self.counters.1;
+            self.counters.1 += 1;
+            let mut body: Vec<String> = Vec::new();
+            for _ in 0..(1 + self.rng.usize(3)) {
+                for _try in 0..6 {
+                    let before = self.globals.len();
+                    let (s2, _d, lab) = self.atomic_stmt();
+                    self.globals.truncate(before);
+                    if lab == "assign" || lab == "elem-assign" || lab == "str-elem-assign" {
+                        body.push(s2.src);
+                        break;
+                    }
+                }
+            }
+            self.line_funs.clear();
+            if !body.is_empty() {
+                let reads: Vec<String> = self.globals.iter().filter(|v| !matches!(v.ty, Ty::Fun(_, _))).map(|v| v.name.clone()).collect();
+                let r = self.rng.pick(&reads).clone();
+                return line(
+                    "call-assigns",
+                    vec![
+                        st(&format!("functie f{a}(n) {{ als n > 0 {{ f{a}(n - 1); }}; {body} n }};", a = a, body = body.join(" ")), true),
+                        st(&format!("f{}({});", a, self.rng.below(3)), false),
+                        st(&format!("{};", r), false),
+                    ],
+                    Fail::None,
+                    true,
+                    false,
+                );
+            }
+        }
         if !self.failed_names.is_empty() && self.rng.chance(1, 3) {
             // a name that only a failed line declared is free: declare it and read it
             let i = self.rng.usize(self.failed_names.len());
